@@ -765,7 +765,7 @@ impl ParserListener for Screen {
             Some(margins) => margins.top,
             None => 0,
         };
-        let count = count.unwrap_or(1);
+        let count = count.filter(|&c| c != 0).unwrap_or(1);
         self.cursor.y = self.cursor.y.saturating_sub(count).max(top);
     }
 
@@ -774,7 +774,7 @@ impl ParserListener for Screen {
             Some(margins) => margins.bottom,
             None => self.lines - 1,
         };
-        let count = count.unwrap_or(1);
+        let count = count.filter(|&c| c != 0).unwrap_or(1);
         self.cursor.y = (self.cursor.y + count).min(bottom);
     }
 
@@ -789,7 +789,7 @@ impl ParserListener for Screen {
     /// # Parameters
     /// - `count`: Number of columns to skip.
     fn cursor_forward(&mut self, count: Option<u32>) {
-        self.cursor.x += count.unwrap_or(1);
+        self.cursor.x += count.filter(|&c| c != 0).unwrap_or(1);
         self.ensure_hbounds();
     }
 
@@ -805,8 +805,9 @@ impl ParserListener for Screen {
         if self.cursor.x == self.columns {
             self.cursor.x -= 1
         }
-        if self.cursor.x >= count.unwrap_or(1) {
-            self.cursor.x -= count.unwrap_or(1);
+        let count = count.filter(|&c| c != 0).unwrap_or(1);
+        if self.cursor.x >= count {
+            self.cursor.x -= count;
         } else {
             self.cursor.x = 0;
         }
